@@ -1,6 +1,7 @@
 package main
 
 import (
+	"unicode/utf8"
 	"fmt"
 	"math/rand"
 	"strings"
@@ -45,9 +46,11 @@ func foldEq(a, b rune) bool {
 	return a == b || unicode.ToLower(a) == unicode.ToLower(b) || ref.SameFold(a, b)
 }
 
-// bytePrefixAt: the published prefix strings are built bytewise, so a common prefix of
-// alternation branches may end inside a multi-byte rune ("é\xc3" for éß|ééß); such a fact is
-// still true of the UTF-8 text, which is what the raw-string filter searches.
+// bytePrefixAt reports whether the UTF-8 text from p starts with pre byte-wise. It was once
+// accepted as an alternative reading of a published prefix that ended inside a multi-byte rune
+// ("é\xc3" for éß|ééß) - that acceptance hid defect D51 (the same computation published a
+// half rune as the literal after a loop and lost matches). A published prefix must be valid
+// UTF-8 and hold rune-wise; the byte-wise reading only explains the message now.
 func bytePrefixAt(text []rune, p int, pre string) bool {
 	return p >= 0 && p <= len(text) && strings.HasPrefix(string(text[p:]), pre)
 }
@@ -186,7 +189,9 @@ func (f *facts) check(text []rune, p, idx, length, origin int, seen func(string)
 				if !hasPrefixAt(text, p-len(pre), pre, ic) {
 					fail("LeadingPrefix=%q but the text before (right-to-left) match start %d does not end with it", fo.LeadingPrefix, p)
 				}
-			} else if !hasPrefixAt(text, p, pre, ic) && !bytePrefixAt(text, p, fo.LeadingPrefix) {
+			} else if !utf8.ValidString(fo.LeadingPrefix) {
+				fail("LeadingPrefix=%q is not valid UTF-8 (it ends inside a rune; byte-wise it holds at %d: %v)", fo.LeadingPrefix, p, bytePrefixAt(text, p, fo.LeadingPrefix))
+			} else if !hasPrefixAt(text, p, pre, ic) {
 				fail("LeadingPrefix=%q (ignoreCase=%v) but the text at match start %d does not start with it", fo.LeadingPrefix, ic, p)
 			}
 		}
@@ -195,7 +200,7 @@ func (f *facts) check(text []rune, p, idx, length, origin int, seen func(string)
 			ic := fo.FindMode == syntax.LeadingStrings_OrdinalIgnoreCase_LeftToRight
 			ok := false
 			for _, s := range fo.LeadingPrefixes {
-				if hasPrefixAt(text, p, []rune(s), ic) || bytePrefixAt(text, p, s) {
+				if utf8.ValidString(s) && hasPrefixAt(text, p, []rune(s), ic) {
 					ok = true
 					break
 				}
